@@ -313,7 +313,11 @@ impl ParallelCacheState {
             // If it is marked as selfdestructed inside revm
             // we need to changed state to destroyed.
             if is_destructed {
+                #[cfg(feature = "verif-hooks")]
+                crate::verif::rt::pt1("cache_clear_storage", crate::verif::rt::fnv(address.as_slice()));
                 self.storage.remove(&address);
+                #[cfg(feature = "verif-hooks")]
+                crate::verif::rt::pt1("cache_set_status", crate::verif::rt::fnv(address.as_slice()));
                 return self.get_account_mut(address).selfdestruct();
             }
 
@@ -327,7 +331,11 @@ impl ParallelCacheState {
             // is not possible because CREATE2 is introduced later.
             if is_created {
                 let info = account.info;
+                #[cfg(feature = "verif-hooks")]
+                crate::verif::rt::pt1("cache_clear_storage", crate::verif::rt::fnv(address.as_slice()));
                 self.storage.remove(&address);
+                #[cfg(feature = "verif-hooks")]
+                crate::verif::rt::pt1("cache_set_status", crate::verif::rt::fnv(address.as_slice()));
                 let (transition, changed_slots) =
                     self.get_account_mut(address).newly_created(info.clone(), changed_storage);
                 self.contracts.entry(info.code_hash).or_insert_with(|| info.code.clone().unwrap());
@@ -341,8 +349,12 @@ impl ParallelCacheState {
             // pre-existing empty accounts are unmarked as touched. Therefore, an account that
             // reaches the commit layer as touched, empty, and not created must be cleared.
             else if is_empty {
+                #[cfg(feature = "verif-hooks")]
+                crate::verif::rt::pt1("cache_clear_storage", crate::verif::rt::fnv(address.as_slice()));
                 self.storage.remove(&address);
                 drop(changed_storage);
+                #[cfg(feature = "verif-hooks")]
+                crate::verif::rt::pt1("cache_set_status", crate::verif::rt::fnv(address.as_slice()));
                 (self.get_account_mut(address).touch_empty_eip161(), None)
             } else {
                 let (transition, changed_slots) =
@@ -353,6 +365,8 @@ impl ParallelCacheState {
         if let Some(changed_slots) = changed_slots &&
             !changed_slots.is_empty()
         {
+            #[cfg(feature = "verif-hooks")]
+            crate::verif::rt::pt1("cache_write_slots", crate::verif::rt::fnv(address.as_slice()));
             self.update_storage_slot(address, changed_slots);
         }
         transition
